@@ -6,6 +6,7 @@ package eng
 import (
 	"crypto/sha1"
 	"fmt"
+	"os"
 	"go/token"
 	"go/types"
 	"sort"
@@ -151,6 +152,7 @@ func (r *Run) global(g *ssa.Global) *Value {
 			*p = Iface{T: types.NewPointer(t), V: pv}
 		}
 	}
+	auditGlobal(r, g)
 	if g.Pkg != nil && g.Pkg.Pkg.Path() == "net/http" && g.Name() == "DefaultClient" {
 		// var DefaultClient = &Client{} (net/http's initialiser is not executed)
 		c := new(Value)
@@ -583,4 +585,42 @@ func parseFPValue(s string) float64 {
 		return nan()
 	}
 	return 0
+}
+
+// auditGlobal (GJV_AUDIT_GLOBALS=<file>): lists the package-level variables touched by a run
+// whose package initialiser is not executed although it assigns them — candidates for a zero
+// value the real program never sees.
+var auditSeen sync.Map
+
+func auditGlobal(r *Run, g *ssa.Global) {
+	f := os.Getenv("GJV_AUDIT_GLOBALS")
+	if f == "" || g.Pkg == nil {
+		return
+	}
+	for _, p := range r.P.InitPkgs {
+		if p == g.Pkg {
+			return
+		}
+	}
+	name := g.Pkg.Pkg.Path() + "." + g.Name()
+	if _, dup := auditSeen.LoadOrStore(name, true); dup {
+		return
+	}
+	assigned := false
+	if init := g.Pkg.Func("init"); init != nil {
+		for _, b := range init.Blocks {
+			for _, in := range b.Instrs {
+				if st, ok := in.(*ssa.Store); ok && st.Addr == ssa.Value(g) {
+					assigned = true
+				}
+			}
+		}
+	}
+	if !assigned {
+		return
+	}
+	if fh, err := os.OpenFile(f, os.O_APPEND|os.O_CREATE|os.O_WRONLY, 0644); err == nil {
+		fmt.Fprintln(fh, name)
+		fh.Close()
+	}
 }
